@@ -20,6 +20,7 @@ import (
 	metav1 "k8s.io/apimachinery/pkg/apis/meta/v1"
 	"k8s.io/apimachinery/pkg/selection"
 	"k8s.io/apimachinery/pkg/types"
+	"k8s.io/apimachinery/pkg/fields"
 	"k8s.io/apimachinery/pkg/watch"
 	"sigs.k8s.io/controller-runtime/pkg/client"
 	crfake "sigs.k8s.io/controller-runtime/pkg/client/fake"
@@ -859,8 +860,22 @@ type rsvWatcher struct {
 	w        *world
 	p        *proc
 	ns, name string
+	sel      fields.Selector // field selector of the watch, evaluated like the API server does for pods
 	ch       chan watch.Event
 	closed   bool
+}
+
+// podFields: the selectable fields of a pod (the set the API server supports for pods that matter here).
+func podFields(p *v1.Pod) fields.Set {
+	return fields.Set{"metadata.name": p.Name, "metadata.namespace": p.Namespace, "spec.nodeName": p.Spec.NodeName,
+		"spec.schedulerName": p.Spec.SchedulerName, "status.phase": string(p.Status.Phase), "spec.serviceAccountName": p.Spec.ServiceAccountName}
+}
+
+func (wt *rsvWatcher) matches(p *v1.Pod) bool {
+	if p.Namespace != wt.ns || (wt.name != "" && p.Name != wt.name) {
+		return false
+	}
+	return wt.sel == nil || wt.sel.Matches(podFields(p))
 }
 
 func (wt *rsvWatcher) Stop() {
@@ -890,7 +905,7 @@ func (wt *rsvWatcher) offer(old, cur *v1.Pod) {
 	case old == nil:
 		typ = watch.Added
 	}
-	if ref.Namespace != wt.ns || (wt.name != "" && ref.Name != wt.name) {
+	if !wt.matches(ref) {
 		return
 	}
 	select {
@@ -901,12 +916,12 @@ func (wt *rsvWatcher) offer(old, cur *v1.Pod) {
 }
 
 // newWatcherLocked: list + watch in one atomic step, as an API server watch without resourceVersion does.
-func (w *world) newWatcherLocked(p *proc, ns, name string) *rsvWatcher {
-	wt := &rsvWatcher{w: w, p: p, ns: ns, name: name, ch: make(chan watch.Event, 256)}
+func (w *world) newWatcherLocked(p *proc, ns, name string, sel fields.Selector) *rsvWatcher {
+	wt := &rsvWatcher{w: w, p: p, ns: ns, name: name, sel: sel, ch: make(chan watch.Event, 256)}
 	l := &v1.PodList{}
 	_ = w.base.List(context.Background(), l, client.InNamespace(ns))
 	for i := range l.Items {
-		if name == "" || l.Items[i].Name == name {
+		if wt.matches(&l.Items[i]) {
 			wt.ch <- watch.Event{Type: watch.Added, Object: l.Items[i].DeepCopy()}
 		}
 	}
@@ -957,7 +972,7 @@ func (w *world) clientFor(p *proc) client.WithWatch {
 			}
 			var wt *rsvWatcher
 			err := w.call(p, "watch", "watch:pods[ns="+lo.Namespace+"]", nil, nil, func() error {
-				wt = w.newWatcherLocked(p, lo.Namespace, name)
+				wt = w.newWatcherLocked(p, lo.Namespace, name, lo.FieldSelector)
 				return nil
 			})
 			if err != nil {
